@@ -441,3 +441,23 @@ PROPS['C17']['explanation'] = ('Unbounded proof for every capacity N >= 1, every
 PROPS['C02']['verus'] = ['c17_response_serialize']
 PROPS['C15']['kani'] = PROPS['C15']['kani'] + K_LOSSY[0:1] + K_LOSSY[4:5]
 PROPS['C16']['kani'] = []
+
+# bounded validation of the assumed dependency contracts on the real dependency code
+DEP_CONTAINERS = [
+    H(ROOT + 'dep::dep_k_heapless_vec_contract', ['heapless::Vec<u8, 4>::{push, extend_from_slice, resize_default, truncate, capacity} (dependency, validated)'],
+      kind='gc', bound='capacity 4, symbolic contents and arguments'),
+    H(ROOT + 'dep::dep_k_bytes_contract', ['heapless_bytes::Bytes<4>::{new, push, extend_from_slice, deref} (dependency, validated)'],
+      kind='gc', bound='capacity 4, symbolic contents'),
+]
+DEP_CBOR = [
+    H(ROOT + 'dep::dep_k_cbor_serialize_contract', ['cbor_smol::cbor_serialize (dependency, validated)'], kind='gc',
+      bound='u32 values, buffers of 0..=6 bytes'),
+]
+DEP_DECODE_CAP = [
+    H(ROOT + 'dep::dep_k_decode_capacity', ['<Bytes<4> as Deserialize>, <String<4> as Deserialize> (A4, validated)'], kind='gc',
+      bound='capacity 4, inputs of 0..=6 bytes'),
+]
+PROPS['C07']['kani'] = PROPS['C07']['kani'] + DEP_CONTAINERS
+PROPS['C09']['kani'] = PROPS['C09']['kani'] + DEP_CONTAINERS
+PROPS['C17']['kani'] = PROPS['C17']['kani'] + DEP_CONTAINERS + DEP_CBOR
+PROPS['C12']['kani'] = PROPS['C12']['kani'] + DEP_DECODE_CAP
